@@ -208,15 +208,17 @@ func (filter *SearchableQueryFilter) filterColumnEqualComparisonExprs(stmt sqlpa
 		}
 
 		// <ColName> = _binary 'value': the introducer only tells the type of the literal (client libraries put it before
-		// binary values), the comparison is rewritten like the one with the bare literal
-		if unary, ok := comparisonExpr.Right.(*sqlparser.UnaryExpr); ok && strings.TrimSpace(unary.Operator) == "_binary" {
-			if sqlVal, ok := unary.Expr.(*sqlparser.SQLVal); ok && isSupportedSQLVal(sqlVal) {
-				comparisonExpr.Right = sqlVal
-			}
+		// binary values), the comparison is rewritten like the one with the bare literal. Only the comparisons that are
+		// rewritten lose the introducer: the tree is shared with every other comparison of the statement, and
+		// <ColName> LIKE _binary 'value%' has to be printed as it was received
+		right := comparisonExpr.Right
+		if unary, ok := right.(*sqlparser.UnaryExpr); ok && strings.TrimSpace(unary.Operator) == "_binary" {
+			right = unary.Expr
 		}
 
-		if sqlVal, ok := comparisonExpr.Right.(*sqlparser.SQLVal); ok && isSupportedSQLVal(sqlVal) {
+		if sqlVal, ok := right.(*sqlparser.SQLVal); ok && isSupportedSQLVal(sqlVal) {
 			if comparisonExpr.Operator == sqlparser.EqualStr || comparisonExpr.Operator == sqlparser.NotEqualStr || comparisonExpr.Operator == sqlparser.NullSafeEqualStr {
+				comparisonExpr.Right = sqlVal
 				exprs = append(exprs, SearchableExprItem{
 					Expr:    comparisonExpr,
 					Setting: lColumnSetting,
